@@ -87,6 +87,21 @@ def build(rng, gen):
                 continue
             parent.add_child(ref_el, idx)
         pairs.append((ref_el, src))
+    if pairs and rng.random() < 0.2:
+        # a referencing element kept inside an additionalMetadata/metadata island (an EML fragment parked there): references are
+        # references wherever they stand
+        src = pairs[0][1]
+        holder = next((n for n in treegen.all_nodes(root) if n.name == "metadata"), None)
+        if holder is None and root.name == "eml":
+            am = Node("additionalMetadata")
+            holder = Node("metadata")
+            am.add_child(holder)
+            root.add_child(am)
+        if holder is not None:
+            ref_el = Node(src.name)
+            ref_el.add_child(Node("references", content=src.attributes["id"]))
+            holder.add_child(ref_el)
+            pairs.append((ref_el, src))
     return root, pairs
 
 
@@ -379,7 +394,7 @@ def one(ctx, gen, i):
         real = pairs[j][1].attributes["id"]
         # a value that names no id: absent, empty, or a near miss of a real one (padded, other case, cut short, extended)
         taken = {n.attributes["id"] for n in treegen.all_nodes(root) if "id" in n.attributes}
-        pairs[j][0].find_child("references").content = rng.choice([v for v in ["no-such-id", "", "SRC-1", real + " ", " " + real, real + "\n",
+        pairs[j][0].find_child("references").content = rng.choice([v for v in ["no-such-id", "", None, None, "SRC-1", real + " ", " " + real, real + "\n",
                                                                                "\n    " + real + "\n  ", real.upper(), real[:-1], real + "0"]
                                                                    if v not in taken])
         judge_fault(ctx, root, "dangling", log + [f"dangling@{j}/{len(pairs)}"])
